@@ -237,7 +237,7 @@ theorem sig_meets_spec (f : Fields) (hwf : f.WF) (a : Area) (hpa : parseArea f.t
     split <;> omega
   · simp [modelSig]
   · -- no duplicates
-    simp only [modelSig, hq]
+    simp only [modelSig, hq, badQ_parsed f a hpa, List.append_nil]
     rw [List.nodup_append]
     refine ⟨hdr_nodup f, optQ_nodup _ _ (by unfold wsValues at hl2; omega) (by unfold tsValues at hl3; omega), ?_⟩
     intro x hx y hy hxy
@@ -245,7 +245,7 @@ theorem sig_meets_spec (f : Fields) (hwf : f.WF) (a : Area) (hpa : parseArea f.t
     exact hdr_not_opt f x (Or.inl (hoptmem x hy)) hx
   · -- exactly the quirks whose condition holds
     intro q _ _
-    simp only [modelSig, hq, List.mem_append]
+    simp only [modelSig, hq, badQ_parsed f a hpa, List.append_nil, List.mem_append]
     by_cases hqo : q ∈ optionQuirks
     · have hnh : q ∉ hdrQuirks f := hdr_not_opt f q (Or.inl hqo)
       simp only [hnh, false_or, optQ_mem]
@@ -297,6 +297,64 @@ theorem header_fields_unconditional (f : Fields) (hwf : f.WF) :
   cases f.ip.v6 <;> simp
   split <;> omega
 
+/-- `options_malformed` (the helper the repair `fixes/C03-bad-quirk-for-malformed-options.patch` added)
+returns `true` exactly on the byte strings the option grammar rejects — for areas of any length. -/
+theorem optionsMalformed_spec (b : Bytes) : optionsMalformed b = true ↔ parseArea b = none :=
+  optionsMalformed_iff b
+
+example : optionsMalformed [3, 2, 1, 1] = true ∧ optionsMalformed [2, 4, 5] = true ∧ optionsMalformed [8] = true ∧
+    optionsMalformed [77, 1, 9] = true ∧ optionsMalformed [2, 4, 5, 180, 0, 9, 9] = false ∧
+    optionsMalformed [5, 10, 1, 2, 3, 4, 5, 6, 7, 8] = false ∧ optionsMalformed [5, 12, 1, 2, 3, 4, 5, 6, 7, 8, 9, 10] = true := by
+  decide
+
+/-- **Malformed option areas.** When the grammar rejects the option bytes the signature carries `bad`
+(once, and nowhere else), the header quirks are exactly those whose condition holds, and version,
+ittl, olen, pclass are the headers'; the specification leaves layout, MSS, window scale, window and
+the other option-derived quirks open there. The one thing it still demands of those — no quirk listed
+twice — holds unless the walk itself repeats one (`KF.C03.malformedRepeatsQuirk`). -/
+theorem sig_meets_spec_malformed (f : Fields) (hwf : f.WF) (hpa : parseArea f.tcp.opts = none)
+    (hrep : ¬ Huginn.KF.C03.malformedRepeatsQuirk f) (hvalid : ValidFlags f) (hsyn : Syn f) :
+    SigOk f (modelSig f) := by
+  obtain ⟨hver, httl, holen, hpc⟩ := header_fields_unconditional f hwf
+  have hnrst : ¬ Rst f := by
+    unfold ValidFlags Syn FinF Rst at *
+    intro hr; exact hvalid.1 ⟨hsyn, Or.inr hr⟩
+  have hwq := (walk_quirks (tcpType f.tcp.flags) f.tcp.opts {}).2
+  have hwnd : (walk (tcpType f.tcp.flags) f.tcp.opts {}).quirks.Nodup := by
+    unfold Huginn.KF.C03.malformedRepeatsQuirk at hrep
+    exact Decidable.of_not_not fun h => hrep ⟨hpa, h⟩
+  have hbadopt : Quirk.optBad ∉ optionQuirks := by decide
+  have hq := modelSig_quirks f
+  rw [badQ_malformed f hpa] at hq
+  unfold SigOk
+  simp only [hpa]
+  refine ⟨hver, httl, holen, hpc, ?_, ?_, trivial⟩
+  · -- no duplicates: header quirks, option-derived quirks and `bad` are pairwise disjoint
+    rw [hq, List.nodup_append]
+    refine ⟨?_, by simp, ?_⟩
+    · rw [List.nodup_append]
+      refine ⟨hdr_nodup f, hwnd, ?_⟩
+      intro x hx y hy hxy
+      subst hxy
+      exact hdr_not_opt f x (Or.inl (hwq x hy)) hx
+    · intro x hx y hy hxy
+      simp only [List.mem_singleton] at hy
+      subst hy; subst hxy
+      rw [List.mem_append] at hx
+      rcases hx with hx | hx
+      · exact hdr_not_opt f _ (Or.inr rfl) hx
+      · exact hbadopt (hwq _ hx)
+  · -- `bad` is there; the header quirks are exactly those whose condition holds
+    intro q _ hno
+    have hqo : q ∉ optionQuirks := hno trivial
+    rw [hq]
+    simp only [List.mem_append, List.mem_singleton]
+    by_cases hqb : q = .optBad
+    · subst hqb; simp [QuirkCond]
+    · have : q ∉ (walk (tcpType f.tcp.flags) f.tcp.opts {}).quirks := fun h => hqo (hwq q h)
+      simp only [this, hqb, or_false]
+      exact hdr_mem f hwf none hnrst q hqo hqb
+
 /-! ### the analysis outcome -/
 
 /-- Full statement (false for the current code, see the witnesses below). -/
@@ -305,7 +363,10 @@ def FullRenderMeetsSpec : Prop := ∀ f : Fields, f.WF → Specified f → Holds
 /-- **C03, partial.** Outside the known-finding classes the model of
 `process_ipv4_packet` / `process_ipv6_packet` reports exactly what the header fields define:
 rejected flag combinations and non-handshake segments nothing, a SYN the client signature and
-MTU = MSS + 40/60, a SYN+ACK the server signature. No bound on any field. -/
+MTU = MSS + 40/60, a SYN+ACK the server signature; a malformed option area gives `bad` (since the
+repair fixes/C03-bad-quirk-for-malformed-options.patch the class "bad never reported" is gone; what
+is excluded instead is only `KF.C03.malformedRepeatsQuirk`: a malformed area in which the walk lists
+an option-derived quirk twice). No bound on any field. -/
 theorem render_meets_spec_partial (f : Fields) (hwf : f.WF) (hs : Specified f)
     (hk : ¬ Huginn.KF.C03.any f) : Holds f (process f) := by
   have hwf' := hwf
@@ -315,7 +376,7 @@ theorem render_meets_spec_partial (f : Fields) (hwf : f.WF) (hs : Specified f)
   obtain ⟨_, _, hmf⟩ := ipflag_bits f.ip.flags hfl
   unfold Huginn.KF.C03.any at hk
   simp only [not_or] at hk
-  obtain ⟨hk_eol, hk_role, hk_mtu, hk_bad⟩ := hk
+  obtain ⟨hk_eol, hk_role, hk_mtu, hk_rep⟩ := hk
   obtain ⟨hproto, hfrag, hamb⟩ := hs
   have hfrag' : f.ip.v6 = true ∨ (f.ip.fragOff = 0 ∧ ¬ (f.ip.flags &&& IP_MF = IP_MF)) := by
     rcases hfrag with h | ⟨h1, h2⟩
@@ -330,11 +391,21 @@ theorem render_meets_spec_partial (f : Fields) (hwf : f.WF) (hs : Specified f)
       by_cases h : Syn f
       · exact h
       · exact absurd ⟨hvalid, h⟩ hk_role
-    obtain ⟨a, hpa⟩ : ∃ a, parseArea f.tcp.opts = some a := by
-      unfold Huginn.KF.C03.badNeverReported at hk_bad
-      cases h : parseArea f.tcp.opts with
-      | none => exact absurd h hk_bad
-      | some a => exact ⟨a, rfl⟩
+    cases hpa0 : parseArea f.tcp.opts with
+    | none =>
+      -- malformed option area: `bad`; layout, MSS, window and MTU are left open by the specification
+      have hsig := sig_meets_spec_malformed f hwf hpa0 hk_rep hvalid hsyn
+      rw [process_ok f hproto hfrag' hv]
+      simp only [hvalid, not_true_eq_false, if_false, hsyn]
+      by_cases hack : Ack f
+      · have hfc : fromClient f.tcp.flags = false := by
+          rw [Bool.eq_false_iff]; intro h; rw [hbc] at h; exact h.2 hack
+        simp [hack, hfc, hsig, onOpt]
+      · have hfc : fromClient f.tcp.flags = true := by rw [hbc]; exact ⟨hsyn, hack⟩
+        simp only [hack, if_false, hfc, if_true, Bool.not_true, Bool.false_eq_true]
+        exact ⟨trivial, by simp [MtuOk, hpa0, onOpt], hsig⟩
+    | some a =>
+    have hpa : parseArea f.tcp.opts = some a := hpa0
     have hpad : a.pad = none ∨ a.pad = some [] := by
       unfold Huginn.KF.C03.optionsAfterEol at hk_eol
       simp only [hpa, onOpt] at hk_eol
@@ -448,7 +519,8 @@ def linuxSyn : Fields :=
     tcp := { sport := 40000, dport := 80, seq := 1000, doff := 10, flags := 2, window := 29200,
              opts := [2, 4, 5, 180, 4, 2, 8, 10, 0, 0, 0, 9, 0, 0, 0, 0, 1, 3, 3, 7] } }
 
-/-- the hypotheses of `render_meets_spec_partial` are satisfiable, and the conclusion is not trivial -/
+/-- the hypotheses of `render_meets_spec_partial` are satisfiable, and the conclusion is not trivial
+(for a malformed option area: `fixed_badNeverReported_regression` below) -/
 example : linuxSyn.WF ∧ Specified linuxSyn ∧ ¬ Huginn.KF.C03.any linuxSyn ∧
     (∃ r s, process linuxSyn = .ok r ∧ r.syn = some s ∧ r.mtu = some 1500 ∧ s.wsize = .mss 20 ∧
       s.olayout = [.mss, .sok, .ts, .nop, .ws] ∧ s.quirks = [.df, .nonZeroID]) := by
@@ -492,10 +564,38 @@ theorem fixed_winHeaderWords_regression :
       (∃ r s, process w2 = .ok r ∧ r.syn = some s ∧ s.wsize = .mtu 3) := by
   refine ⟨by decide +kernel, by decide +kernel, _, _, rfl, rfl, by decide +kernel⟩
 
-/-- (g) window scale without payload (`03 02`): no `bad` quirk -/
-theorem kf_badNeverReported_witness :
+/-- repaired (fixes/C03-bad-quirk-for-malformed-options.patch): the witness of the former class (g),
+window scale without payload (`03 02`), now carries `bad` (last) and the whole report meets the
+specification. -/
+theorem fixed_badNeverReported_regression :
     let w := withOpts [3, 2, 1, 1] 6
-    w.WF ∧ Specified w ∧ Huginn.KF.C03.badNeverReported w ∧ ¬ Holds w (process w) := by decide +kernel
+    w.WF ∧ Specified w ∧ parseArea w.tcp.opts = none ∧ ¬ Huginn.KF.C03.any w ∧ Holds w (process w) ∧
+      (∃ r s, process w = .ok r ∧ r.syn = some s ∧ s.quirks = [.df, .nonZeroID, .optBad]) := by
+  refine ⟨by decide +kernel, by decide +kernel, by decide +kernel, by decide +kernel, by decide +kernel,
+    _, _, rfl, rfl, by decide +kernel⟩
+
+/-- quirk list of the client signature reported for `f` (empty when there is none) -/
+private def synQuirks (f : Fields) : List Quirk :=
+  match process f with
+  | .ok r => (r.syn.map (·.quirks)).getD []
+  | .error _ => []
+
+/-- every kind of malformation the grammar distinguishes yields `bad` (last), a well-formed area does
+not: no length byte, length byte 0 / 1, option running past the area, wrong size of MSS / window scale /
+SACK-permitted / SACK / timestamps -/
+example : ∀ o ∈ [[2], [77, 0, 1, 1], [77, 1, 1, 1], [77, 5, 1, 1], [2, 4, 5], [2, 3, 5, 1], [3, 2, 1, 1],
+      [4, 3, 1, 1], [5, 4, 1, 1, 1, 1, 1, 1], [8, 6, 0, 0, 0, 1, 1, 1]],
+    parseArea o = none ∧ (synQuirks (withOpts o 7)).getLast? = some .optBad := by decide +kernel
+example : synQuirks (withOpts [2, 4, 5, 180, 77, 3, 9, 1] 7) = [.df, .nonZeroID] := by decide +kernel
+
+/-- (i) what is left of (g): `03 02` (malformed), then two window-scale options with shift 15 — the walk
+goes on and lists `exws` twice -/
+theorem kf_malformedRepeatsQuirk_witness :
+    let w := withOpts [3, 2, 3, 3, 15, 3, 3, 15] 7
+    w.WF ∧ Specified w ∧ Huginn.KF.C03.malformedRepeatsQuirk w ∧ ¬ Holds w (process w) ∧
+      (∃ r s, process w = .ok r ∧ r.syn = some s ∧
+        s.quirks = [.df, .nonZeroID, .excessiveWindowScaling, .excessiveWindowScaling, .optBad]) := by
+  refine ⟨by decide +kernel, by decide +kernel, by decide +kernel, by decide +kernel, _, _, rfl, rfl, by decide +kernel⟩
 
 /-- repaired (fixes/C03-window-mtu-no-saturated-divisor.patch): window 65535 with MSS 65495 is raw -/
 theorem fixed_winSaturatedMtu_regression :
